@@ -33,6 +33,12 @@ type s3obj struct {
 }
 
 type s3mem struct {
+	// request faults from the program, keyed by request number: the request fails
+	// with a server error before taking effect ("fail_before") or after it
+	// ("fail_after": the write happened, the caller sees an error)
+	faults map[int]string
+	reqs   int
+	hit    map[string]int
 	obj      *s3obj
 	version  int
 	etagMode int // 0: md5 of body (like S3), 1: version counter
@@ -68,8 +74,21 @@ type s3client struct {
 
 func apiErr(code string) error { return &smithy.GenericAPIError{Code: code, Message: code} }
 
+// fault returns the fault assigned to this request, if any.
+func (m *s3mem) fault() string {
+	m.reqs++
+	f := m.faults[m.reqs]
+	if f != "" && m.hit != nil {
+		m.hit["s3_"+f]++
+	}
+	return f
+}
+
 func (c *s3client) GetObject(ctx context.Context, in *s3.GetObjectInput, _ ...func(*s3.Options)) (*s3.GetObjectOutput, error) {
 	c.t.Yield("s3:get")
+	if f := c.m.fault(); f != "" {
+		return nil, apiErr("InternalError")
+	}
 	if c.m.obj == nil {
 		return nil, apiErr("NoSuchKey")
 	}
@@ -81,6 +100,10 @@ func (c *s3client) PutObject(ctx context.Context, in *s3.PutObjectInput, _ ...fu
 	body, _ := io.ReadAll(in.Body)
 	c.t.Yield("s3:put")
 	m := c.m
+	flt := m.fault()
+	if flt == "fail_before" {
+		return nil, apiErr("InternalError")
+	}
 	if in.IfNoneMatch != nil && *in.IfNoneMatch == "*" && m.obj != nil {
 		return nil, apiErr("PreconditionFailed")
 	}
@@ -104,12 +127,19 @@ func (c *s3client) PutObject(ctx context.Context, in *s3.PutObjectInput, _ ...fu
 	m.obj = &s3obj{body: body, etag: m.newETag(body)}
 	m.seq++
 	m.log = append(m.log, s3event{Seq: m.seq, At: time.Now(), Op: "put", Owner: nl.Owner, Gen: nl.Generation, Exp: nl.ExpiresAt, Prev: prev, Client: c.id})
+	if flt == "fail_after" {
+		return nil, apiErr("InternalError") // the write took effect; the response was lost
+	}
 	return &s3.PutObjectOutput{ETag: aws.String(m.obj.etag)}, nil
 }
 
 func (c *s3client) DeleteObject(ctx context.Context, in *s3.DeleteObjectInput, _ ...func(*s3.Options)) (*s3.DeleteObjectOutput, error) {
 	c.t.Yield("s3:delete")
 	m := c.m
+	flt := m.fault()
+	if flt == "fail_before" {
+		return nil, apiErr("InternalError")
+	}
 	if m.obj == nil {
 		return nil, apiErr("NoSuchKey")
 	}
@@ -124,6 +154,9 @@ func (c *s3client) DeleteObject(ctx context.Context, in *s3.DeleteObjectInput, _
 	m.obj = nil
 	m.seq++
 	m.log = append(m.log, s3event{Seq: m.seq, At: time.Now(), Op: "delete", Prev: prev, Client: c.id})
+	if flt == "fail_after" {
+		return nil, apiErr("InternalError")
+	}
 	return &s3.DeleteObjectOutput{}, nil
 }
 
@@ -148,6 +181,12 @@ func genC20(r *Rng, tier string, idx int) *Program {
 	}
 	for i := 0; i < 200; i++ {
 		p.Schedule = append(p.Schedule, r.Intn(1000))
+	}
+	// request faults in 35% of the runs: a request fails before or after taking effect
+	if r.Chance(0.35) {
+		for k := r.Range(1, 3); k > 0; k-- {
+			p.Faults = append(p.Faults, Fault{Call: r.Range(1, 30), Kind: PickOf(r, []string{"fail_before", "fail_after", "fail_after"})})
+		}
 	}
 	return p
 }
@@ -184,7 +223,10 @@ func runC20(t testingT, p *Program) *Result {
 			start := time.Now()
 			ttl := time.Duration(p.Params["ttl_ms"]) * time.Millisecond
 			nc := int(p.Params["clients"])
-			mem := &s3mem{etagMode: int(p.Params["etag_mode"])}
+			mem := &s3mem{etagMode: int(p.Params["etag_mode"]), faults: map[int]string{}, hit: res.FaultsHit}
+			for _, f := range p.Faults {
+				mem.faults[f.Call] = f.Kind
+			}
 			sch := NewSched(p.Schedule)
 			sch.MaxSteps = 400
 			sch.Advances = []time.Duration{time.Millisecond, ttl / 3, ttl - time.Millisecond, ttl, ttl + time.Millisecond, 2 * ttl}
@@ -319,6 +361,7 @@ func runC20(t testingT, p *Program) *Result {
 				}
 			}
 			if allDone && viol == nil {
+				mem.faults = nil // bounded liveness is asserted once faults have stopped
 				time.Sleep(3 * ttl)
 				ok := false
 				var lastErr error
